@@ -12,7 +12,12 @@ Oracle = on every transition the call's output equals the output of the same cal
 """
 import ast
 import copy
+import hashlib
+import itertools
 import json
+import os
+import shutil
+import tempfile
 from collections import OrderedDict, deque
 
 from mc import alphabets as al
@@ -67,6 +72,23 @@ class C(object):
         total = a + b
         return total
 '''
+
+RETURN_NONE_SRC = '''
+def g(a=1, flag=False):
+    """
+    Summary line
+
+    :param a: the a
+
+    :param flag: the flag
+    """
+    if flag:
+        print(a)
+    return None
+'''
+
+BLANK_DOC_FUNC_SRC = 'def blank(gamma=3, delta=4):\n    """   """\n    return gamma\n'
+BLANK_DOC_CLASS_SRC = 'class Blank(object):\n    """"""\n    alpha: int = 1\n    beta: str = "b"\n'
 
 CLASS_SRC = '''
 class ConfigClass(object):
@@ -152,6 +174,15 @@ def ir_ops():
         ("emit.numpydoc", lambda o: emit.docstring(o, docstring_format="numpydoc")),
         ("emit.google", lambda o: emit.docstring(o, docstring_format="google")),
         ("emit.rest_nodefault", lambda o: emit.docstring(o, docstring_format="rest", emit_default_doc=False)),
+        # one deviation from the default options per emitter
+        ("emit.class_doc", lambda o: to_code(emit.class_(o, emit_default_doc=True))),
+        ("emit.class_nowrap", lambda o: to_code(emit.class_(o, word_wrap=False))),
+        ("emit.function_doc", lambda o: to_code(emit.function(o, function_name="f", function_type="static", emit_default_doc=True))),
+        ("emit.function_doctypes", lambda o: to_code(emit.function(o, function_name="f", function_type="cls", inline_types=False,
+                                                                  emit_as_kwonlyargs=False))),
+        ("emit.function_from_ir", lambda o: to_code(emit.function(o, function_name=None, function_type=None))),
+        ("emit.argparse_nowrap", lambda o: to_code(emit.argparse_function(o, word_wrap=False, wrap_description=True))),
+        ("emit.numpydoc_nowrap", lambda o: emit.docstring(o, docstring_format="numpydoc", word_wrap=False)),
     ])
 
 
@@ -201,6 +232,9 @@ def initial_objects(tier):
 
     out.append(("ir.from_function_with_body", "ir", parsed(FUNC_SRC, parse.function)))
     out.append(("ir.from_method_with_body", "ir", parsed(METHOD_SRC, parse.function, lambda m: m.body[0].body[2])))
+    out.append(("ir.from_function_return_none", "ir", parsed(RETURN_NONE_SRC, parse.function)))
+    out.append(("ir.from_blank_docstring_function", "ir", parsed(BLANK_DOC_FUNC_SRC, parse.function)))
+    out.append(("ir.from_blank_docstring_class", "ir", parsed(BLANK_DOC_CLASS_SRC, parse.class_)))
     out.append(("ir.from_class", "ir", parsed(CLASS_SRC, parse.class_)))
     out.append(("ir.from_argparse_with_body", "ir", parsed(ARGPARSE_SRC, parse.argparse_ast)))
     out.append(("ast.function", "ast:function", lambda: ast.parse(FUNC_SRC).body[0]))
@@ -208,6 +242,76 @@ def initial_objects(tier):
     out.append(("ast.class", "ast:class", lambda: ast.parse(CLASS_SRC).body[0]))
     out.append(("ast.class_with_method", "ast:class", lambda: ast.parse(METHOD_SRC).body[0]))
     out.append(("ast.argparse", "ast:argparse", lambda: ast.parse(ARGPARSE_SRC).body[0]))
+    return out
+
+
+def foreign_ops():
+    """Calls that do not take the shared object at all: whatever they leave behind in the library must not reach it."""
+    from doctrans import emit, parse
+    from doctrans.source_transformer import to_code
+
+    return OrderedDict([
+        ("foreign.parse_blank_docstring_function", lambda o: canon_ir(parse.function(ast.parse(BLANK_DOC_FUNC_SRC.replace("gamma", "eps")).body[0]))),
+        ("foreign.parse_blank_docstring_class", lambda o: canon_ir(parse.class_(ast.parse(BLANK_DOC_CLASS_SRC.replace("alpha", "omega")).body[0]))),
+        ("foreign.parse_function_with_body", lambda o: canon_ir(parse.function(ast.parse(FUNC_SRC.replace("total", "acc")).body[0]))),
+        ("foreign.parse_argparse", lambda o: canon_ir(parse.argparse_ast(ast.parse(ARGPARSE_SRC.replace("'foo'", "'bar'")).body[0]))),
+        ("foreign.emit_class_of_other", lambda o: to_code(emit.class_(al.make_ir([al.A_RED[2], al.A_RED[4]], al.RETURNS[4], False, 0),
+                                                                         emit_default_doc=True))),
+    ])
+
+
+def _forked(build, ops, seq):
+    """Run ``seq`` (op names) on one live object built in a child forked from this process; returns output digests."""
+    r, w = os.pipe()
+    pid = os.fork()
+    if pid == 0:
+        try:
+            os.close(r)
+            outs = []
+            try:
+                obj = build()
+                for op in seq:
+                    try:
+                        out = ops[op](obj)
+                    except Exception as e:
+                        out = "RAISE:%s" % type(e).__name__
+                    outs.append(hashlib.sha256(str(out).encode()).hexdigest()[:16] + ("|" + out if str(out).startswith("RAISE") else ""))
+            except BaseException as e:  # the builder itself failed
+                outs = ["BUILD-RAISE:%s" % type(e).__name__]
+            os.write(w, json.dumps(outs).encode())
+        finally:
+            os._exit(0)
+    os.close(w)
+    buf = b""
+    while True:
+        chunk = os.read(r, 65536)
+        if not chunk:
+            break
+        buf += chunk
+    os.close(r)
+    os.waitpid(pid, 0)
+    return json.loads(buf.decode()) if buf else None
+
+
+SYNC_PRE = ("missing", "empty", "nodef", "v2", "v1")
+SYNC_BODY = "total = 0\nprint(total)"
+
+
+def sync_cases():
+    from mc import project as pj
+
+    out = []
+    for truth in pj.KINDS:
+        others = [k for k in pj.KINDS if k != truth]
+        for x, y in ((others[0], others[1]), (others[1], others[0])):
+            for px in SYNC_PRE:
+                for py in SYNC_PRE:
+                    out.append({"part": "sync", "truth": truth, "x": x, "y": y, "prex": px, "prey": py, "extra": False})
+        # x is a second file of the truth's own kind
+        for y in others:
+            for px in SYNC_PRE:
+                for py in SYNC_PRE:
+                    out.append({"part": "sync", "truth": truth, "x": truth, "y": y, "prex": px, "prey": py, "extra": True})
     return out
 
 
@@ -224,9 +328,92 @@ class C13(core.Check):
 
     def space(self):
         self._inits = initial_objects(self.tier)
-        return core.Listed([{"init": n} for n, _, _ in self._inits], note="one case per initial shared object")
+        cases = [{"init": n} for n, _, _ in self._inits]
+        # live histories: the object is *not* copied between calls, foreign calls are interleaved
+        maxlen = 3 if self.tier == "thorough" else 2
+        quick_inits = None if self.tier == "thorough" else {n for n, _, _ in self._inits if not n.startswith("ir.atom")}
+        for n, kind, _ in self._inits:
+            if quick_inits is not None and n not in quick_inits:
+                continue
+            if self.tier == "thorough" and n.startswith("ir.atom"):
+                continue
+            names = list(ir_ops() if kind == "ir" else ast_ops(kind.split(":")[1])) + list(foreign_ops())
+            own = [o for o in names if not o.startswith("foreign.")]
+            for L in range(2, maxlen + 1):
+                for seq in itertools.product(names, repeat=L):
+                    if not seq[-1] in own:
+                        continue  # the last call observes the shared object
+                    if L == 3 and not any(o.startswith("foreign.") for o in seq[:2]) and kind == "ir":
+                        continue  # three own calls on an IR are covered to closure by the copy-based search
+                    cases.append({"part": "live", "init": n, "seq": list(seq)})
+        cases += sync_cases()
+        return core.Listed(cases, note="one case per initial shared object (closure search), per live call sequence, per sync pair")
+
+    def run_live(self, case):
+        inits = {n: (k, b) for n, k, b in initial_objects(self.tier)}
+        kind, build = inits[case["init"]]
+        ops = OrderedDict(ir_ops() if kind == "ir" else ast_ops(kind.split(":")[1]))
+        ops.update(foreign_ops())
+        if not hasattr(self, "_solo"):
+            self._solo = {}
+        for op in set(case["seq"]):
+            key = (case["init"], op)
+            if key not in self._solo:
+                self._solo[key] = _forked(build, ops, [op])[0]
+        outs = _forked(build, ops, case["seq"])
+        sites = []
+        for pos, op in enumerate(case["seq"]):
+            facts = {"part": "live", "init": case["init"], "op": op, "after": ">".join(case["seq"][:pos]) or "<initial>"}
+            got = outs[pos] if outs and pos < len(outs) else None
+            sites.append(site(got == self._solo[(case["init"], op)], facts, fail="output_differs_from_solo", got=got,
+                              solo=self._solo[(case["init"], op)]))
+        return sites, [case["init"]] + case["seq"], [case["init"], case["seq"], outs], {"live_sequences": 1}
+
+    def run_sync(self, case):
+        """What one target receives must not depend on which other targets are brought up to date in the same run."""
+        from mc import project as pj
+
+        if not hasattr(self, "_dir"):
+            self._dir = tempfile.mkdtemp(prefix="c13_%d_" % os.getpid())
+            import atexit
+
+            atexit.register(shutil.rmtree, self._dir, True)
+        truth, x, y = case["truth"], case["x"], case["y"]
+        results = []
+        for with_y in (False, True):
+            shutil.rmtree(self._dir, ignore_errors=True)
+            P = pj.Project(self._dir)
+            P.write(truth, pj.render(truth, "v1", None, None, SYNC_BODY if truth != "class" else ""))
+            if case["extra"]:
+                P.extra = {truth: ["extra_" + pj.FILES[truth]]}
+                xpath = P.extra_paths(truth)[0]
+                txt = pj.prestate_text(truth, case["prex"], "v1")
+                if txt is not None:
+                    with open(xpath, "w") as f:
+                        f.write(txt)
+            else:
+                xpath = P.path(x)
+                P.write(x, pj.prestate_text(x, case["prex"], "v1"))
+            if with_y:
+                P.write(y, pj.prestate_text(y, case["prey"], "v1"))
+            kinds = [k for k in pj.KINDS if k == truth or (k == x and not case["extra"]) or (with_y and k == y)]
+            if case["extra"] and not with_y:
+                kinds = [truth]
+            exc, rep, out = P.sync(truth, kinds, "api")
+            results.append((type(exc).__name__ if exc is not None else None,
+                            open(xpath).read() if os.path.exists(xpath) else None))
+        facts = {"part": "sync", "truth": pj.SHORT[truth], "x": pj.SHORT[x] + ("2" if case["extra"] else ""), "y": pj.SHORT[y],
+                 "prex": case["prex"], "prey": case["prey"]}
+        (e1, t1), (e2, t2) = results
+        sites = [site(e1 == e2 and t1 == t2, facts, fail="target_depends_on_other_targets_in_the_run", alone_exc=e1, together_exc=e2,
+                      diff=core.short(first_diff(t1 or "", t2 or ""), 120) if t1 != t2 else None)]
+        return sites, core.jkey(case), [core.jkey(case), t1 == t2], {"sync_pairs": 1}
 
     def run_case(self, case):
+        if case.get("part") == "live":
+            return self.run_live(case)
+        if case.get("part") == "sync":
+            return self.run_sync(case)
         inits = {n: (k, b) for n, k, b in initial_objects(self.tier)}
         kind, build = inits[case["init"]]
         if kind == "ir":
